@@ -22,21 +22,27 @@ def obsOf : Op → Out → Option SObs
   | _, .badHandle => none
   | .open, .handle id => some (.opened id)
   | .close h, .closed u rel => some (.closed h u rel)
+  | .abort h, .closed u rel => some (.aborted h .ok u rel)
+  | .abort h, .abortedClosed u => some (.aborted h .errClosed u 0)
   | .read h, o => some (.io h .read (resOf o))
   | .write h, o => some (.io h .write (resOf o))
-  | .setrd h _, o => some (.io h .setrd (resOf o))
-  | .setwd h, o => some (.io h .setwd (resOf o))
+  | .setrd h p, o => some (.dl h true false p (resOf o))
+  | .setwd h p, o => some (.dl h false true p (resOf o))
+  | .setd h p, o => some (.dl h true true p (resOf o))
   | .feed, .fed r => some (.fed r)
   | .feed, .skip => some .skip
   | _, _ => none
 
-/-- The monitor's bookkeeping agrees with the model state. -/
+/-- The monitor's bookkeeping agrees with the model state; in particular the handles that HOLD a write deadline for
+the monitor are the open wrappers whose `writeDeadlineArmed` is set. -/
 structure Rel (s : State) (m : SMon) : Prop where
   isOpen : m.isOpen = s.handles.map isOpenB
   parked : m.parked = s.handles.map (·.pending)
   u : m.u = s.uCloses
+  ownRd : m.ownRd = s.handles.map (·.rdlPast)
+  ownWd : m.ownWd = s.handles.map armedOpen
 
-theorem rel_init : Rel State.init {} := ⟨rfl, rfl, rfl⟩
+theorem rel_init (fwd : Bool) : Rel (State.initK fwd) {} := ⟨rfl, rfl, rfl, rfl, rfl⟩
 
 theorem set_same {α : Type} {l : List α} {i : Nat} {a : α} (h : l[i]? = some a) : l.set i a = l := by
   have hlt := getElem?_lt h
@@ -94,6 +100,33 @@ theorem firstPending_spec {hs : List Handle} {i k : Nat} (h : firstPending hs i 
       rw [this]
       simpa using hg
 
+theorem map_set_same {β : Type} (f : Handle → β) {hs : List Handle} {h : Nat} {hd hd' : Handle}
+    (hg : hs[h]? = some hd) (he : f hd' = f hd) : (hs.set h hd').map f = hs.map f := by
+  rw [List.map_set, he]
+  apply set_same
+  rw [List.getElem?_map, hg]; rfl
+
+theorem rel_isOpen_set {hs : List Handle} {l : List Bool} {h : Nat} {hd hd' : Handle} (ro : l = hs.map isOpenB)
+    (hg : hs[h]? = some hd) (he : hd'.closed = hd.closed) : l = (hs.set h hd').map isOpenB := by
+  rw [map_set_same isOpenB hg (by simp [isOpenB, he])]; exact ro
+
+theorem rel_parked_set {hs : List Handle} {l : List Nat} {h : Nat} {hd hd' : Handle} (rp : l = hs.map (·.pending))
+    (hg : hs[h]? = some hd) (he : hd'.pending = hd.pending) : l = (hs.set h hd').map (·.pending) := by
+  rw [map_set_same (·.pending) hg he]; exact rp
+
+theorem rel_rd_set {hs : List Handle} {l : List Bool} {h : Nat} {hd hd' : Handle} (rr : l = hs.map (·.rdlPast))
+    (hg : hs[h]? = some hd) (he : hd'.rdlPast = hd.rdlPast) : l = (hs.set h hd').map (·.rdlPast) := by
+  rw [map_set_same (·.rdlPast) hg he]; exact rr
+
+theorem rel_wd_set {hs : List Handle} {l : List Bool} {h : Nat} {hd hd' : Handle} (rw : l = hs.map armedOpen)
+    (hg : hs[h]? = some hd) (he : armedOpen hd' = armedOpen hd) : l = (hs.set h hd').map armedOpen := by
+  rw [map_set_same armedOpen hg he]; exact rw
+
+theorem held_of_pos {hs : List Handle} (h : 0 < nHeld hs) : (hs.map armedOpen).any id = true := by
+  obtain ⟨a, ha, hp⟩ := List.countP_pos_iff.mp h
+  simp only [List.any_map, List.any_eq_true]
+  exact ⟨a, ha, hp⟩
+
 /-- One step of the model: the monitor accepts the observation and stays in agreement. -/
 theorem monitor_step {s : State} {m : SMon} {op : Op} (hr : Reachable s) (hrel : Rel s m) :
     match obsOf op (step s op).2 with
@@ -101,13 +134,15 @@ theorem monitor_step {s : State} {m : SMon} {op : Op} (hr : Reachable s) (hrel :
     | some o => ∃ m', sharedViolation m o = (m', none) ∧ Rel (step s op).1 m' := by
   have hi := sinv_of_reachable hr
   have hnp := npc_of_reachable hr
-  obtain ⟨ro, rp, ru⟩ := hrel
+  have hwi := winv_of_reachable hr
+  obtain ⟨ro, rp, ru, rr, rw⟩ := hrel
   have hlen : m.isOpen.length = s.handles.length := by rw [ro, List.length_map]
   cases op with
   | «open» =>
     simp only [step, obsOf]
-    refine ⟨{ m with isOpen := m.isOpen ++ [true], parked := m.parked ++ [0] }, by simp [sharedViolation, hlen], ?_⟩
-    exact ⟨by simp [ro, isOpenB], by simp [rp], ru⟩
+    refine ⟨{ m with isOpen := m.isOpen ++ [true], parked := m.parked ++ [0], ownRd := m.ownRd ++ [false], ownWd := m.ownWd ++ [false] },
+      by simp [sharedViolation, hlen], ?_⟩
+    exact ⟨by simp [ro, isOpenB], by simp [rp], ru, by simp [rr], by simp [rw, armedOpen]⟩
   | close h =>
     simp only [step]
     cases hg : s.handles[h]? with
@@ -119,25 +154,34 @@ theorem monitor_step {s : State} {m : SMon} {op : Op} (hr : Reachable s) (hrel :
       cases hcl : hd.closed with
       | true =>
         simp only [hcl, if_true, obsOf]
-        refine ⟨m, ?_, ⟨ro, rp, ru⟩⟩
+        refine ⟨m, ?_, ⟨ro, rp, ru, rr, rw⟩⟩
         simp [sharedViolation, hmo, isOpenB, hcl, ru]
       | false =>
-        have hn := nOpen_close { hd with closed := true, pending := 0 } hg hcl rfl
+        have hn := nOpen_close { hd with closed := true, pending := 0, wdArmed := false } hg hcl rfl
         have hrefs := hi.refs
-        have hmn := mon_nOpen (s := s) (m := m) ⟨ro, rp, ru⟩
+        have hmn := mon_nOpen (s := s) (m := m) ⟨ro, rp, ru, rr, rw⟩
+        have hrd : (s.handles.set h { hd with closed := true, pending := 0, wdArmed := false }).map (·.rdlPast) = s.handles.map (·.rdlPast) :=
+          map_set_same (·.rdlPast) hg rfl
         simp only [hcl, Bool.false_eq_true, if_false]
         by_cases hle : s.refs - 1 ≤ 0
         · have h1 : nOpen s.handles = 1 := by omega
           simp only [hle, if_true, obsOf]
-          refine ⟨{ m with isOpen := m.isOpen.set h false, parked := m.parked.set h 0, u := s.uCloses + 1 }, ?_, ?_⟩
-          · simp [sharedViolation, hmo, isOpenB, hcl, hmn, h1, ru, hmp]
-          · exact ⟨by simp [ro, List.map_set, isOpenB], by simp [rp, List.map_set], rfl⟩
+          refine ⟨{ m with isOpen := m.isOpen.set h false, parked := m.parked.set h 0, u := s.uCloses + 1, ownWd := m.ownWd.set h false }, ?_, ?_⟩
+          · simp [sharedViolation, closeClause, hmo, isOpenB, hcl, hmn, h1, ru, hmp]
+          · exact ⟨by simp [ro, List.map_set, isOpenB], by simp [rp, List.map_set], rfl, by rw [hrd]; exact rr,
+              by simp [rw, List.map_set, armedOpen]⟩
         · have h1 : nOpen s.handles ≠ 1 := by omega
-          simp only [hle, if_false, obsOf]
-          refine ⟨{ m with isOpen := m.isOpen.set h false, parked := m.parked.set h 0, u := s.uCloses }, ?_, ?_⟩
-          · simp [sharedViolation, hmo, isOpenB, hcl, hmn, h1, ru, hmp]
-          · exact ⟨by simp [ro, List.map_set, isOpenB], by simp [rp, List.map_set], rfl⟩
-  | read h =>
+          simp only [hle, if_false]
+          have hobs : ∀ (x y : State), obsOf (.close h) ((if hd.wdArmed = true then (x, Out.closed s.uCloses hd.pending) else (y, Out.closed s.uCloses hd.pending))).2
+              = some (.closed h s.uCloses hd.pending) := by
+            intro x y; split <;> rfl
+          rw [hobs]
+          refine ⟨{ m with isOpen := m.isOpen.set h false, parked := m.parked.set h 0, u := s.uCloses, ownWd := m.ownWd.set h false }, ?_, ?_⟩
+          · simp [sharedViolation, closeClause, hmo, isOpenB, hcl, hmn, h1, ru, hmp]
+          · split <;>
+            exact ⟨by simp [ro, List.map_set, isOpenB], by simp [rp, List.map_set], rfl, by rw [hrd]; exact rr,
+              by simp [rw, List.map_set, armedOpen]⟩
+  | abort h =>
     simp only [step]
     cases hg : s.handles[h]? with
     | none => simp [obsOf]
@@ -147,28 +191,64 @@ theorem monitor_step {s : State} {m : SMon} {op : Op} (hr : Reachable s) (hrel :
         rw [rp, List.getElem?_map, hg]; rfl
       cases hcl : hd.closed with
       | true =>
+        simp only [hcl, if_true, obsOf]
+        refine ⟨m, ?_, ⟨ro, rp, ru, rr, rw⟩⟩
+        simp [sharedViolation, hmo, isOpenB, hcl, ru]
+      | false =>
+        have hn := nOpen_close { hd with rdlPast := true, closed := true, pending := 0, wdArmed := false } hg hcl rfl
+        have hrefs := hi.refs
+        have hmn := mon_nOpen (s := s) (m := m) ⟨ro, rp, ru, rr, rw⟩
+        have hmn' : List.countP id m.isOpen = nOpen s.handles := hmn
+        simp only [hcl, Bool.false_eq_true, if_false]
+        by_cases hle : s.refs - 1 ≤ 0
+        · have h1 : nOpen s.handles = 1 := by omega
+          simp only [hle, if_true, obsOf]
+          refine ⟨{ m with isOpen := m.isOpen.set h false, parked := m.parked.set h 0, u := s.uCloses + 1,
+                           ownRd := m.ownRd.set h true, ownWd := m.ownWd.set h false }, ?_, ?_⟩
+          · simp [sharedViolation, closeClause, SMon.nOpen, hmo, isOpenB, hcl, hmn', h1, ru, hmp]
+          · exact ⟨by simp [ro, List.map_set, isOpenB], by simp [rp, List.map_set], rfl, by simp [rr, List.map_set],
+              by simp [rw, List.map_set, armedOpen]⟩
+        · have h1 : nOpen s.handles ≠ 1 := by omega
+          simp only [hle, if_false, obsOf]
+          refine ⟨{ m with isOpen := m.isOpen.set h false, parked := m.parked.set h 0, u := s.uCloses,
+                           ownRd := m.ownRd.set h true, ownWd := m.ownWd.set h false }, ?_, ?_⟩
+          · simp [sharedViolation, closeClause, SMon.nOpen, hmo, isOpenB, hcl, hmn', h1, ru, hmp]
+          · exact ⟨by simp [ro, List.map_set, isOpenB], by simp [rp, List.map_set], rfl, by simp [rr, List.map_set],
+              by simp [rw, List.map_set, armedOpen]⟩
+  | read h =>
+    simp only [step]
+    cases hg : s.handles[h]? with
+    | none => simp [obsOf]
+    | some hd =>
+      have hmo : m.isOpen[h]? = some (isOpenB hd) := by rw [ro, List.getElem?_map, hg]; rfl
+      have hmp : m.parked[h]?.getD 0 = hd.pending := by
+        rw [rp, List.getElem?_map, hg]; rfl
+      have hmr : m.ownRd[h]?.getD false = hd.rdlPast := by
+        rw [rr, List.getElem?_map, hg]; rfl
+      cases hcl : hd.closed with
+      | true =>
         simp only [hcl, if_true, obsOf, resOf]
-        exact ⟨m, by simp [sharedViolation, hmo, isOpenB, hcl], ⟨ro, rp, ru⟩⟩
+        exact ⟨m, by simp [sharedViolation, hmo, isOpenB, hcl], ⟨ro, rp, ru, rr, rw⟩⟩
       | false =>
         have hu := uCloses_zero_of_open hi hg hcl
         simp only [hcl, Bool.false_eq_true, if_false, hu, Nat.lt_irrefl]
         have ru0 : m.u = 0 := by rw [ru, hu]
-        by_cases hq : s.queue > 0
-        · simp only [hq, if_true, obsOf, resOf]
-          exact ⟨m, by simp [sharedViolation, hmo, isOpenB, hcl], ⟨ro, rp, ru0⟩⟩
-        · simp only [hq, if_false]
+        by_cases hq' : s.queue > 0
+        · simp only [hq', if_true, obsOf, resOf]
+          exact ⟨m, by simp [sharedViolation, hmo, isOpenB, hcl], ⟨ro, rp, ru0, rr, rw⟩⟩
+        · simp only [hq', if_false]
           cases hp : hd.rdlPast with
           | true =>
             simp only [if_true, obsOf, resOf]
-            exact ⟨m, by simp [sharedViolation, hmo, isOpenB, hcl], ⟨ro, rp, ru⟩⟩
+            exact ⟨m, by simp [sharedViolation, hmo, isOpenB, hcl, hmr, hp], ⟨ro, rp, ru, rr, rw⟩⟩
           | false =>
             simp only [Bool.false_eq_true, if_false, obsOf, resOf]
             refine ⟨{ m with parked := m.parked.set h (m.parked.getD h 0 + 1) }, by simp [sharedViolation, hmo, isOpenB, hcl], ?_⟩
-            refine ⟨?_, ?_, ru0⟩
-            · simp only [List.map_set, ro]
-              rw [set_same]
-              rw [List.getElem?_map, hg]; simp [isOpenB, hcl]
+            refine ⟨?_, ?_, ru0, ?_, ?_⟩
+            · exact rel_isOpen_set ro hg (by simp [*])
             · simp [rp, List.map_set, hg]
+            · exact rel_rd_set rr hg (by simp [*])
+            · exact rel_wd_set rw hg (by simp [armedOpen, *])
   | write h =>
     simp only [step]
     cases hg : s.handles[h]? with
@@ -178,11 +258,21 @@ theorem monitor_step {s : State} {m : SMon} {op : Op} (hr : Reachable s) (hrel :
       cases hcl : hd.closed with
       | true =>
         simp only [hcl, if_true, obsOf, resOf]
-        exact ⟨m, by simp [sharedViolation, hmo, isOpenB, hcl], ⟨ro, rp, ru⟩⟩
+        exact ⟨m, by simp [sharedViolation, hmo, isOpenB, hcl], ⟨ro, rp, ru, rr, rw⟩⟩
       | false =>
         have hu := uCloses_zero_of_open hi hg hcl
-        simp only [hcl, Bool.false_eq_true, if_false, hu, Nat.lt_irrefl, obsOf, resOf]
-        exact ⟨m, by simp [sharedViolation, hmo, isOpenB, hcl], ⟨ro, rp, by rw [ru, hu]⟩⟩
+        simp only [hcl, Bool.false_eq_true, if_false, hu, Nat.lt_irrefl]
+        cases hwp : s.wdlPast with
+        | false =>
+          simp only [Bool.false_eq_true, if_false, obsOf, resOf]
+          exact ⟨m, by simp [sharedViolation, hmo, isOpenB, hcl], ⟨ro, rp, by rw [ru, hu], rr, rw⟩⟩
+        | true =>
+          simp only [if_true, obsOf, resOf]
+          have hheld : m.held = true := by
+            rcases hwi.held hwp with ⟨_, h0⟩ | hpos
+            · have := open_pos' hg hcl; omega
+            · simp only [SMon.held, rw]; exact held_of_pos hpos
+          exact ⟨m, by simp [sharedViolation, hmo, isOpenB, hcl, hheld], ⟨ro, rp, by rw [ru, hu], rr, rw⟩⟩
   | setrd h p =>
     simp only [step]
     cases hg : s.handles[h]? with
@@ -192,18 +282,15 @@ theorem monitor_step {s : State} {m : SMon} {op : Op} (hr : Reachable s) (hrel :
       cases hcl : hd.closed with
       | true =>
         simp only [hcl, if_true, obsOf, resOf]
-        exact ⟨m, by simp [sharedViolation, hmo, isOpenB, hcl], ⟨ro, rp, ru⟩⟩
+        exact ⟨m, by simp [sharedViolation, hmo, isOpenB, hcl], ⟨ro, rp, ru, rr, rw⟩⟩
       | false =>
         simp only [hcl, Bool.false_eq_true, if_false, obsOf, resOf]
-        refine ⟨m, by simp [sharedViolation, hmo, isOpenB, hcl], ?_⟩
-        refine ⟨?_, ?_, ru⟩
-        · simp only [List.map_set, ro]
-          rw [set_same]
-          rw [List.getElem?_map, hg]; simp [isOpenB, hcl]
-        · simp only [List.map_set, rp]
-          rw [set_same]
-          rw [List.getElem?_map, hg]; rfl
-  | setwd h =>
+        refine ⟨{ m with ownRd := m.ownRd.set h p }, by simp [sharedViolation, hmo, isOpenB, hcl], ?_⟩
+        refine ⟨?_, ?_, ru, by simp [rr, List.map_set], ?_⟩
+        · exact rel_isOpen_set ro hg (by simp [*])
+        · exact rel_parked_set rp hg (by simp [*])
+        · exact rel_wd_set rw hg (by simp [armedOpen, *])
+  | setwd h p =>
     simp only [step]
     cases hg : s.handles[h]? with
     | none => simp [obsOf]
@@ -212,24 +299,44 @@ theorem monitor_step {s : State} {m : SMon} {op : Op} (hr : Reachable s) (hrel :
       cases hcl : hd.closed with
       | true =>
         simp only [hcl, if_true, obsOf, resOf]
-        exact ⟨m, by simp [sharedViolation, hmo, isOpenB, hcl], ⟨ro, rp, ru⟩⟩
+        exact ⟨m, by simp [sharedViolation, hmo, isOpenB, hcl], ⟨ro, rp, ru, rr, rw⟩⟩
       | false =>
         simp only [hcl, Bool.false_eq_true, if_false, obsOf, resOf]
-        exact ⟨m, by simp [sharedViolation, hmo, isOpenB, hcl], ⟨ro, rp, ru⟩⟩
+        refine ⟨{ m with ownWd := m.ownWd.set h p }, by simp [sharedViolation, hmo, isOpenB, hcl], ?_⟩
+        refine ⟨?_, ?_, ru, ?_, by simp [rw, List.map_set, armedOpen, hcl]⟩
+        · exact rel_isOpen_set ro hg (by simp [*])
+        · exact rel_parked_set rp hg (by simp [*])
+        · exact rel_rd_set rr hg (by simp [*])
+  | setd h p =>
+    simp only [step]
+    cases hg : s.handles[h]? with
+    | none => simp [obsOf]
+    | some hd =>
+      have hmo : m.isOpen[h]? = some (isOpenB hd) := by rw [ro, List.getElem?_map, hg]; rfl
+      cases hcl : hd.closed with
+      | true =>
+        simp only [hcl, if_true, obsOf, resOf]
+        exact ⟨m, by simp [sharedViolation, hmo, isOpenB, hcl], ⟨ro, rp, ru, rr, rw⟩⟩
+      | false =>
+        simp only [hcl, Bool.false_eq_true, if_false, obsOf, resOf]
+        refine ⟨{ m with ownRd := m.ownRd.set h p, ownWd := m.ownWd.set h p }, by simp [sharedViolation, hmo, isOpenB, hcl], ?_⟩
+        refine ⟨?_, ?_, ru, by simp [rr, List.map_set], by simp [rw, List.map_set, armedOpen, hcl]⟩
+        · exact rel_isOpen_set ro hg (by simp [*])
+        · exact rel_parked_set rp hg (by simp [*])
   | feed =>
     simp only [step]
     by_cases hu : s.uCloses > 0
     · simp only [hu, if_true, obsOf]
-      exact ⟨m, by simp [sharedViolation], ⟨ro, rp, ru⟩⟩
+      exact ⟨m, by simp [sharedViolation], ⟨ro, rp, ru, rr, rw⟩⟩
     · simp only [hu, if_false]
       by_cases h0 : totalPending s.handles = 0
       · simp only [h0, if_true, obsOf]
-        exact ⟨m, by simp [sharedViolation], ⟨ro, rp, ru⟩⟩
+        exact ⟨m, by simp [sharedViolation], ⟨ro, rp, ru, rr, rw⟩⟩
       · simp only [h0, if_false]
         by_cases h1 : totalPending s.handles = 1
         · simp only [h1, if_true]
           cases hf : firstPending s.handles 0 with
-          | none => simp only [obsOf]; exact ⟨m, by simp [sharedViolation], ⟨ro, rp, ru⟩⟩
+          | none => simp only [obsOf]; exact ⟨m, by simp [sharedViolation], ⟨ro, rp, ru, rr, rw⟩⟩
           | some k =>
             simp only
             obtain ⟨_, hd, hg, hp⟩ := firstPending_spec hf
@@ -246,61 +353,29 @@ theorem monitor_step {s : State} {m : SMon} {op : Op} (hr : Reachable s) (hrel :
             have hmp : m.parked[k]? = some (0 + 1) := by
               rw [rp, List.getElem?_map, hg]; simp [hp1]
             refine ⟨{ m with parked := m.parked.set k 0 }, by simp [sharedViolation, hmo, hmp], ?_⟩
-            refine ⟨?_, by simp [rp, List.map_set], ru⟩
-            simp only [List.map_set, ro]
-            rw [set_same]
-            rw [List.getElem?_map, hg]; simp [isOpenB, hopen]
+            refine ⟨?_, by simp [rp, List.map_set], ru, ?_, ?_⟩
+            · exact rel_isOpen_set ro hg (by simp [*])
+            · exact rel_rd_set rr hg (by simp [*])
+            · exact rel_wd_set rw hg (by simp [armedOpen, *])
         · simp only [h1, if_false, obsOf]
-          exact ⟨m, by simp [sharedViolation], ⟨ro, rp, ru⟩⟩
+          exact ⟨m, by simp [sharedViolation], ⟨ro, rp, ru, rr, rw⟩⟩
 
 /-- No observation ⇒ the operation named no handle and changed nothing. -/
 theorem state_of_no_obs {s : State} {op : Op} (h : obsOf op (step s op).2 = none) : (step s op).1 = s := by
   cases op with
   | «open» => simp [step, obsOf] at h
-  | close k =>
-    cases hg : s.handles[k]? with
-    | none => simp [step, hg]
-    | some hd =>
-      exfalso
-      revert h
-      simp only [step, hg]
-      (repeat' split) <;> simp [obsOf]
-  | read k =>
-    cases hg : s.handles[k]? with
-    | none => simp [step, hg]
-    | some hd =>
-      exfalso
-      revert h
-      simp only [step, hg]
-      (repeat' split) <;> simp [obsOf]
-  | write k =>
-    cases hg : s.handles[k]? with
-    | none => simp [step, hg]
-    | some hd =>
-      exfalso
-      revert h
-      simp only [step, hg]
-      (repeat' split) <;> simp [obsOf]
-  | setrd k p =>
-    cases hg : s.handles[k]? with
-    | none => simp [step, hg]
-    | some hd =>
-      exfalso
-      revert h
-      simp only [step, hg]
-      (repeat' split) <;> simp [obsOf]
-  | setwd k =>
-    cases hg : s.handles[k]? with
-    | none => simp [step, hg]
-    | some hd =>
-      exfalso
-      revert h
-      simp only [step, hg]
-      (repeat' split) <;> simp [obsOf]
   | feed =>
     revert h
     simp only [step]
     (repeat' split) <;> simp [obsOf]
+  | close k | read k | write k | setrd k p | setwd k p | setd k p | abort k =>
+    cases hg : s.handles[k]? with
+    | none => simp [step, hg]
+    | some hd =>
+      exfalso
+      revert h
+      simp only [step, hg]
+      (repeat' split) <;> simp [obsOf]
 
 /-- observations of a run of the model -/
 def traceOf (s : State) : List Op → List SObs
